@@ -92,6 +92,29 @@ CHECKS = {
              "is checked for monotonicity, range and (equal weights) the order-statistic window; every iteration of real runs checks threshold membership and the "
              "min_samples floor of each training set.",
         note="configurations that cannot all be honoured (min_remove >= size, max_samples < min_samples + nlive, all weights -inf) are excluded and counted", ref="DESIGN.md §3 C17"),
+    "C07": dict(
+        cat="exploration", technique="round-trip / Jacobian-pairing monitor on the real reparameterisation objects + numeric differentiation of the implemented inverse map",
+        text="315 configurations (every registered general and GW reparameterisation name reachable without astropy, option grid, combined and FlowProposal-level "
+             "set-ups incl. the 15-parameter GW default set) x point classes (interior, approach to each bound down to 1e-12 of the range, exact bounds, post-update "
+             "clouds) x random boxes of scale 1e-6..1e6: x -> x' -> x'' round trip, non-sampling fields byte-identical, log_J + log_J_inv = 0, spread of (reported - "
+             "numerically differentiated) log-Jacobian <= 1e-6 over the batch (constant offsets reported), prime prior = prior / Jacobian up to a constant with the same "
+             "support; elementary maps in longdouble down to 1e-15 of the range.",
+        note="finite differences only at points clear of kinks and singular sets (counted per reason); the astropy-only distance converter is not reached", ref="DESIGN.md §3 C07"),
+    "C11": dict(
+        cat="fault_enumeration", technique="real process death at every enumerated file-system operation boundary / byte prefix (fork per crash point), fresh-process resume under the state-digest monitor",
+        text="For 4 (thorough 8) driver runs (both samplers, early checkpoint with no predecessor, late checkpoint with predecessor, keep-old on/off, weights saves) a "
+             "recording pass lists the audited operations of the real safe_file_dump / save_weights; one forked child per crash point performs the real operation and dies "
+             "with os._exit before each operation, after the last, and after each of 5 (40) byte prefixes of the serialised sampler / weights; each of the ~70 (~600) "
+             "resulting directories is resumed by a fresh process that must load a checkpoint digest-equal to the previous or the new one, continue sampling under the "
+             "C01/C03/C05 monitors, or start afresh when none had completed.",
+        note="process death only (no power loss); torch.save is modelled as a sequential writer (validated with strace-injected SIGKILL in the design phase)", ref="DESIGN.md §3 C11"),
+    "C12": dict(
+        cat="exploration", technique="generic object-graph digest at pickling vs after restore inside the real run path + offline accounting over user-boundary event logs of kill/resume histories",
+        text="24 (thorough 300) seeded histories: a run with a checkpoint schedule (every 1/7/50 iterations, every 0.2 s, on training) is killed by os._exit at the K-th "
+             "likelihood point, resumed in a fresh process, killed again (1-3, thorough 1-5 kills), then completed; every checkpoint's full state digest (~300 fields) is "
+             "compared after restore with a reviewed allow-list; evaluation counts and timings are checked cumulatively against the call log; C01/C03/C05 monitors stay armed.",
+        note="flow weights are outside the property's list and only reloaded; fields allowed to differ are listed with reasons in vlib/digest.py and counted in the evidence",
+        ref="DESIGN.md §3 C12"),
 }
 
 PENDING_REASON = "check designed in DESIGN.md but not yet built/calibrated in this session; not claimed until its monitor is silent on the unchanged tree"
